@@ -96,6 +96,15 @@ CLAIMED['C12'] = dict(
          'number/unit grouping are not built. ' + NOTE_COMMON,
     design='§5/C12')
 
+CLAIMED['C16'] = dict(
+    technique='solver-driven small-scope exploration (symx + z3): strings assembled from symbolic indices into a class alphabet, real tokenizers/trie/matcher run on each',
+    text=SX + 'Every string of length <= 4 (thorough 6) over an alphabet of character classes (letter, digit, $, punctuation, space, CJK, ...) goes through '
+         'both tokenizers; every pair of 1..2-token phrases and every query of <= 4 tokens through TrieTree; every query of length 5 (thorough 7) through '
+         'StringMatcher with four phrases. Oracles: an independently written reference tokenizer and a brute-force occurrence search.',
+    note='Strings cannot be symbolic in this engine: the solver enumerates the index space (exhaustive small scope, stated as such); the property sizes '
+         '(30 phrases, length 40) are far beyond it. ' + NOTE_COMMON,
+    design='§5/C16')
+
 NOT_APPLICABLE = {
     'C18': 'ground equality of ~50 concrete generated files against concrete YAML: no quantified variable for a solver to range over; '
            'deciding it is executing the generator (whose dependency ruamel.yaml is absent from every usable interpreter)',
